@@ -196,6 +196,21 @@ def _run_main(ctx):
             except Exception as e:  # noqa
                 ctx.count("construct_rejected")
                 continue
+            edited = None
+            if rng.random() < 0.3:
+                # a port node whose *other* side was re-typed after construction (what inference does to an Input that is
+                # the target of an edge): the file carries the port's own parameter - Input: input side, Output: output side
+                import nir as _nir
+                ports = [(k, n) for k, n in graph.nodes.items() if isinstance(n, (_nir.Input, _nir.Output))
+                         and sum(1 for m in graph.nodes.values() if m is n) == 1]
+                if ports:
+                    k, n = rng.choice(ports)
+                    other = np.array([rng.randrange(1, 9) for _ in range(rng.randrange(1, 4))])
+                    if isinstance(n, _nir.Input):
+                        n.output_type = {"output": other}; edited = (k, "input_type", "output_type", "input", "output")
+                    else:
+                        n.input_type = {"input": other}; edited = (k, "output_type", "input_type", "output", "input")
+                    case["port_other_side_retyped"] = k; ctx.count("port_other_side_retyped")
             residue = None
             if target != "bytesio" and rng.random() < 0.35:
                 import random as _random
@@ -224,6 +239,14 @@ def _run_main(ctx):
                             {"site": "read", "what": "raised", "names": sig_name, "err": err_name(res)},
                             observed=f"{type(res).__name__}: {res}")
                 continue
+            if edited is not None and edited[0] in res.nodes:
+                k, own, oth, kown, koth = edited
+                if not compare.num_equal(getattr(graph.nodes[k], own), getattr(res.nodes[k], own)):
+                    ctx.violate(case, "a port node is not read back with its own parameter (the shape on its own side)",
+                                {"site": "roundtrip", "what": "port-own-side", "names": sig_name},
+                                observed=str(getattr(res.nodes[k], own)), required=str(getattr(graph.nodes[k], own)))
+                # (a fresh port mirrors its parameter on the other side; compare the rest against that)
+                setattr(graph.nodes[k], oth, {koth: getattr(graph.nodes[k], own)[kown]})
             diff = compare.graph_diff(graph, res, strict=False)
             if diff:
                 ctx.violate(case, "read(write(g)) is not equivalent to g",
@@ -233,6 +256,28 @@ def _run_main(ctx):
             if ft:
                 ctx.violate(case, "types of the read graph differ from fresh construction",
                             {"site": "roundtrip", "what": "fresh-types"}, observed=ft[:5])
+        # directed: legal corner shapes of annotated nodes (the empty, rank-0 shape in every container form), nested
+        import nir as _nir
+        for form in ("ndarray", "tuple", "dict"):
+            empty = {"ndarray": np.array([], dtype=np.int64), "tuple": (), "dict": {"input": np.array([], dtype=np.int64)}}[form]
+            case = {"op": "flatten_rank0_input", "form": form}
+            ctx.case(case); ctx.count("directed_rank0_flatten")
+            try:
+                fl = _nir.Flatten(empty, 0, -1)
+                inner = _nir.NIRGraph(nodes={"f": fl, "s": _nir.Scale(np.array(2.0))}, edges=[("f", "f"), ("s", "f.input")])
+                g0 = _nir.NIRGraph(nodes={"sub": inner}, edges=[("sub.f", "sub")])
+            except Exception:
+                ctx.count("construct_rejected"); continue
+            status, res = roundtrip(g0, rng.choice(["str", "bytesio"]), tmpdir)
+            if status == "write-rejected":
+                continue
+            if status != "ok":
+                ctx.violate(case, "write accepted the graph but read raised", {"site": "read", "what": "raised", "names": "plain",
+                                                                              "err": err_name(res)}, observed=str(res)); continue
+            diff = compare.graph_diff(g0, res, strict=False)
+            if diff:
+                ctx.violate(case, "read(write(g)) is not equivalent to g", {"site": "roundtrip", "what": "diff", "names": "plain",
+                                                                           "first": diff[0].split(":")[-1].strip()[:30]}, observed=diff[:5])
         big_and_twins(ctx, tmpdir, big=False)
         ctx.compare("files", cases, obs, reqs)
         ctx.compare("files", cases2, obs2, reqs2)
